@@ -49,6 +49,15 @@ func privFuzzy(e *expr.Expression) int {
 	return *(*int)(unsafe.Add(unsafe.Pointer(e), offFuzzy))
 }
 
+func setPriv(e *expr.Expression, boost float64, fuzzy int) {
+	if offBoost >= 0 {
+		*(*float64)(unsafe.Add(unsafe.Pointer(e), offBoost)) = boost
+	}
+	if offFuzzy >= 0 {
+		*(*int)(unsafe.Add(unsafe.Pointer(e), offFuzzy)) = fuzzy
+	}
+}
+
 type canonW struct {
 	sb    strings.Builder
 	depth int
